@@ -177,6 +177,20 @@ func (ex *Exec) callValue(st *State, fr *Frame, c *ssa.CallCommon, fnv Value, ar
 	case FuncV:
 		// typed contents of sync.Map fields ('syncmap f: p(k, v)' in the type block of the struct)
 		if full := f.Fn.String(); strings.HasPrefix(full, "(*sync.Map).") && len(c.Args) > 0 && ex.pure == nil {
+			if sv, tn, fa := ex.syncViewOf(c.Args[0]); sv != nil {
+				// a sync.Map with a ghost view: the call is an update of the view
+				m := strings.TrimPrefix(full, "(*sync.Map).")
+				ci := ex.syncMapInvOf(c.Args[0])
+				if ci != nil && m == "Store" && len(args) == 3 {
+					ex.emit(st, "pre", ex.srcLabel(fr.Fn, pos, "syncmap-store"), ex.syncMapFact(st, fr, ci, args[1], args[2], c.Args[2]), pos, mergeProps(ex.topProps(st), ci.Props))
+				}
+				res := ex.syncViewCall(st, fr, sv, tn, fa, m, args, pos)
+				if tv, ok := res.(TupleV); ok && len(tv.V) == 2 && ci != nil {
+					st.assume(Implies(tv.V[1].(Scalar).T, ex.syncMapFact(st, fr, ci, args[1], tv.V[0])))
+				}
+				setRes(res)
+				return false
+			}
 			if ci := ex.syncMapInvOf(c.Args[0]); ci != nil {
 				m := strings.TrimPrefix(full, "(*sync.Map).")
 				if (m == "Store" || m == "LoadOrStore") && len(args) == 3 {
